@@ -604,6 +604,91 @@ pub fn boundary(rng: &mut Rng) -> i64 {
     }
 }
 
+/// Build one driver text behind the seams and probe it: Ok(None) = behaves like a driver for `k`
+/// parameters with `heap_mb` megabytes of heap.
+fn probe_driver(dir: &str, step: usize, k: usize, text: &str, heap_mb: u64) -> Result<Option<String>, String> {
+    let c = format!("{dir}/probe{step}.c");
+    let sh = format!("{dir}/probe{step}_shim.c");
+    let so = format!("{dir}/libprobe{step}.so");
+    std::fs::write(&c, text).map_err(|e| e.to_string())?;
+    std::fs::write(&sh, shim_text(k)).map_err(|e| e.to_string())?;
+    let run = |args: &[&str]| -> Result<bool, String> {
+        let o = Command::new("gcc").args(args).output().map_err(|e| format!("gcc: {e}"))?;
+        Ok(o.status.success())
+    };
+    let co = format!("{dir}/probe{step}.o");
+    let sho = format!("{dir}/probe{step}_shim.o");
+    if !run(&["-fPIC", "-O1", "-w", "-c", &c, "-o", &co, "-Dmain=scc_driver_main", "-Dwrite=sim_write", "-Dcalloc=sim_calloc", "-Dfree=sim_free"])? {
+        return Ok(Some("does not compile".into()));
+    }
+    if !run(&["-fPIC", "-O1", "-c", &sh, "-o", &sho])? {
+        return Err("shim does not compile".into());
+    }
+    if !run(&["-shared", "-o", &so, &co, &sho])? {
+        // a driver for another arity declares asm_main with a different prototype than the shim defines
+        return Ok(Some("does not link against an asm_main with this number of parameters".into()));
+    }
+    unsafe {
+        let cso = CString::new(so.clone()).unwrap();
+        let h = libc::dlopen(cso.as_ptr(), libc::RTLD_NOW | libc::RTLD_LOCAL);
+        if h.is_null() {
+            return Err(format!("dlopen {so} failed"));
+        }
+        let sym = |n: &str| -> *mut c_void {
+            let c = CString::new(n).unwrap();
+            libc::dlsym(h, c.as_ptr())
+        };
+        let (set, main, lc) = (sym("sim_set_hooks"), sym("scc_driver_main"), sym("sim_last_calloc"));
+        if set.is_null() || main.is_null() || lc.is_null() {
+            return Err("probe symbols missing".into());
+        }
+        let set: SetHooksFn = std::mem::transmute(set);
+        set(asm_hook, write_hook);
+        let main: MainFn = std::mem::transmute::<*mut c_void, MainFn>(main);
+        let last_calloc: LastCallocFn = std::mem::transmute::<*mut c_void, LastCallocFn>(lc);
+        let probe = |argv: &[String]| -> (i32, u32, Vec<i64>, Vec<u8>) {
+            let mut job = Job {
+                prog: None,
+                plan: EnvPlan::benign(),
+                opts: ExecOpts { step_budget: 0, check_heap: false, record_snaps: 0, print_hook: None },
+                stdout: Vec::new(),
+                outcome: None,
+                args_seen: Vec::new(),
+                asm_main_calls: 0,
+                write_calls: 0,
+                fds: BTreeSet::new(),
+                k,
+            };
+            let cargs: Vec<CString> = std::iter::once("prog".to_string()).chain(argv.iter().cloned()).map(|s| CString::new(s).unwrap()).collect();
+            let mut ptrs: Vec<*const c_char> = cargs.iter().map(|c| c.as_ptr()).collect();
+            ptrs.push(std::ptr::null());
+            JOB = &mut job;
+            let st = main(cargs.len() as c_int, ptrs.as_ptr());
+            JOB = std::ptr::null_mut();
+            (st & 0xff, job.asm_main_calls, job.args_seen, job.stdout)
+        };
+        let good: Vec<String> = (0..k).map(|i| format!("{}", 1000 + i as i64 * 7)).collect();
+        let (_, calls, seen, _) = probe(&good);
+        let want: Vec<i64> = (0..k).map(|i| 1000 + i as i64 * 7).collect();
+        let r = if calls != 1 || seen != want {
+            Some(format!("called asm_main {calls} time(s) with {seen:?} for the arguments {want:?}"))
+        } else if last_calloc() != heap_mb * 1024 * 1024 {
+            Some(format!("requested {} bytes of heap instead of {} MiB", last_calloc(), heap_mb))
+        } else {
+            let mut more = good.clone();
+            more.push("5".into());
+            let (st, calls2, _, out) = probe(&more);
+            if calls2 != 0 || st == 0 || !String::from_utf8_lossy(&out).contains("wrong number of arguments") {
+                Some(format!("did not reject {} argument(s): asm_main called {calls2} time(s), status {st}", k + 1))
+            } else {
+                None
+            }
+        };
+        libc::dlclose(h);
+        Ok(r)
+    }
+}
+
 /// C20, file-system history: the real `generate_c_driver` skips writing a driver that already
 /// exists in ./target_scc, so what an earlier compilation left there must never be handed to a
 /// later program with a different number of parameters. Returns a description of the first
@@ -624,16 +709,15 @@ pub fn driver_history(rng: &mut Rng, tag: &str) -> Result<(u64, Option<String>),
         hist.push(format!("({k}, {h:?})"));
         let path = driver::generate_c_driver(k, h);
         let text = std::fs::read_to_string(&path).unwrap_or_default();
-        let want_argc = format!("(argc != 1 + {k})");
-        let n_args = text.matches("(argv[").count();
-        let n_params = text.lines().find(|l| l.contains("asm(\"asm_main\")")).map(|l| l.matches("int64_t input").count()).unwrap_or(usize::MAX);
-        let want_heap = format!("UINT64_C(1024 * 1024) * {}", h.unwrap_or(32));
-        if !text.contains(&want_argc) || n_args != k || n_params != k || !text.contains(&want_heap) {
+        // functional check of the driver that was handed out: built behind the seams, it must
+        // pass exactly k decimal arguments on, reject k+1 arguments, and request the heap size
+        let step = hist.len();
+        let verdict = probe_driver(&dir, step, k, &text, h.unwrap_or(32) as u64)?;
+        if let Some(why) = verdict {
             bad = Some(format!(
-                "after the driver generation history {} the driver handed out for {k} parameter(s) and heap size {h:?} ({}) checks `{}`, passes {n_args} argument(s), declares {n_params} parameter(s)",
+                "after the driver generation history {} the driver handed out for {k} parameter(s) and heap size {h:?} ({}) {why}",
                 hist.join(", "),
-                path.display(),
-                text.lines().find(|l| l.contains("argc != ")).unwrap_or("?").trim()
+                path.display()
             ));
             break;
         }
@@ -683,7 +767,7 @@ pub fn xworker(id: &str, tier: &str, seed: u64, w: u64, n: u64) -> i32 {
         let keys = Rng::keyed(seed, i, "hashkeys").next() | 1;
         let mut prng = Rng::keyed(seed, i, "x-plans");
         sum.stats.runs += 1;
-        if id == "C20" && i % 16 == 5 {
+        if id == "C20" && i % 64 == 5 {
             match driver_history(&mut rng, &format!("{w}")) {
                 Ok((steps, None)) => {
                     sum.stats.executions += steps;
